@@ -440,6 +440,15 @@ func (vc *VC) evalIdent(name string, env *SpecEnv) SV {
 		return vc.ghostSV(g, env)
 	}
 	if srt, ok := vc.heapSort[name]; ok {
+		if t := vc.heapElem[name]; t != nil && !vc.heapRows[name] {
+			// a cell heap named directly (Hc_...[r]): its cells have that Go type, so fields can be selected by name
+			es := vc.sortOf(t)
+			vc.eng.mu.Lock()
+			if vc.eng.ghostElemType[es] == nil {
+				vc.eng.ghostElemType[es] = t
+			}
+			vc.eng.mu.Unlock()
+		}
 		return SV{t: vc.heapGet(env.cur, name), srt: srt}
 	}
 	if env.pkg != nil {
@@ -823,6 +832,14 @@ func (vc *VC) evalCall(e *Expr, env *SpecEnv) SV {
 			t = app("s_ref", x.t)
 		}
 		return mathBool(app(">=", t, env.old.alloc))
+	case "allocated":
+		// allocated(r): reference r (an integer) denotes a cell that exists in the current state
+		x := ev(0)
+		t := x.t
+		if x.sortIn(vc) == "Slice" {
+			t = app("s_ref", x.t)
+		}
+		return mathBool(and(lt("0", t), lt(t, env.cur.alloc)))
 	case "loopfresh":
 		// loopfresh(x): x was allocated after the enclosing loop was first entered (loop invariants only)
 		x := ev(0)
